@@ -352,6 +352,8 @@ def strict_eligible(scn):
     if scn['start'] != [1] or o['spanhosts'] or not o['strong'] or not o['recursive'] or o['pagereq'] or o['auth'] \
             or o.get('sitemaps') or o.get('noparent') or o.get('tags'):
         return False
+    if scn.get('honour_range'):
+        return False        # (Crawl.tla has no partial answers: 206 / 416 are monitored only)
     hs = cs.hosts_of(scn)
     if len(hs) > 2 or hs[0] != 'a.test' or cs.origins_of(scn) != hs or len(scn['urls']) > 8:
         return False
